@@ -30,7 +30,8 @@ CONSTANTS KSModes,     \* keep-session modes explored (subset of BOOLEAN)
           MaxCmds,     \* bound on commands per behaviour (model checking / generation)
           MaxFaults,   \* bound on injected backend faults per behaviour
           MaxNs,       \* bound on namespace changes per behaviour
-          MaxPerPool   \* connections per pool the model may create
+          MaxPerPool,  \* connections per pool the model may create
+          FOps         \* backend operations a fault may hit: subset of FaultOps below
 
 Slices == {0, 1}
 M == 0   \* role master
@@ -57,7 +58,8 @@ VARIABLES
     stale,    \* the namespace configuration changed since the session last looked
     phase,    \* "idle" between commands, "busy" inside one (event level only)
     \* ---- observation of the last command
-    last,     \* [k, sl, wasTx, wasStale, pre]: command kind, slices addressed, InTx before it, stale before it, tx map before it
+    last,     \* the last command: [k, sl, kind, first, fl] kind of command, slices addressed, statement kind, slice
+              \*   visited first, fault that fired; [wasTx, wasStale, pre] InTx / stale / connection map before it
     used,     \* set of <<slice, conn, inTxAtThatTime>>: statements sent during the last command
     ended,    \* connections that received COMMIT / ROLLBACK / SET autocommit=1 during the last command
     reply,    \* "ok" | "err" | "none"
@@ -72,14 +74,19 @@ Held == {c \in Conns : cs[c].st = "held"}
 Gone == {c \in Conns : cs[c].st = "gone"}
 FreshConn == [st |-> "none", bad |-> "ok", tx |-> FALSE, ac0 |-> FALSE]
 NoMap == [s \in Slices |-> NoConn]
-NoLast == [k |-> "none", sl |-> {}, wasTx |-> FALSE, wasStale |-> FALSE, pre |-> NoMap]
+NoFault == [op |-> "none", sl |-> 0, kind |-> "none"]
+NoLast == [k |-> "none", sl |-> {}, kind |-> "none", first |-> 0, fl |-> NoFault,
+           wasTx |-> FALSE, wasStale |-> FALSE, pre |-> NoMap]
 
 TypeOK ==
     /\ KS \in BOOLEAN /\ User \in {"rw", "rws", "ro"}
-    /\ cs \in [Conns -> [st : {"none", "pool", "held", "gone"}, bad : {"ok", "broken", "closed"},
-                         tx : BOOLEAN, ac0 : BOOLEAN]]
+    /\ DOMAIN cs = Conns
+    /\ \A c \in Conns : /\ cs[c].st \in {"none", "pool", "held", "gone"}
+                        /\ cs[c].bad \in {"ok", "broken", "closed"}
+                        /\ cs[c].tx \in BOOLEAN /\ cs[c].ac0 \in BOOLEAN
     /\ ac \in BOOLEAN /\ intx \in BOOLEAN /\ alive \in BOOLEAN /\ stale \in BOOLEAN
-    /\ tx \in [Slices -> Conns \cup {NoConn}] /\ ks \in [Slices -> Conns \cup {NoConn}]
+    /\ DOMAIN tx = Slices /\ DOMAIN ks = Slices
+    /\ \A s \in Slices : tx[s] \in Conns \cup {NoConn} /\ ks[s] \in Conns \cup {NoConn}
     /\ phase \in {"idle", "busy"}
     /\ reply \in {"ok", "err", "none"}
 
@@ -102,7 +109,9 @@ Idle == phase = "idle"
 
 (* Every statement sent while the session was in a transaction went to the transaction's    *)
 (* connection of that slice, which is a master connection.  (Keep-session sessions are       *)
-(* pinned by C23; for them C18 asks for the master role only.)                               *)
+(* pinned by C23; for them C18 asks for the master role only - except for a read-only user,  *)
+(* whom getBackendKsConn pins to a replica by design: such a user cannot write, and C18's     *)
+(* master clause is not applied to it; see level_note of the checks.)                        *)
 C18_TxStatementOnTxMaster ==
     Idle => \A u \in used : u[3] =>
                (/\ (RoleOf(u[2]) = M \/ (KS /\ User = "ro"))
@@ -165,13 +174,19 @@ C23_NsChange ==
                IF last.wasTx THEN ~alive /\ (last.k # "disconnect" => reply = "err")
                ELSE Rng(last.pre) \cap Held = {}
 
+(* the proxy ends a session only on COM_QUIT, when the client is gone, when it refuses a      *)
+(* keep-session transaction after a configuration change, or after a failed keep-session ping *)
+(* (ErrBadConn)                                                                               *)
+C23_NoSpuriousClose ==
+    (Idle /\ ~alive /\ last.k \notin {"quit", "disconnect"}) =>
+        (KS /\ ((last.wasStale /\ last.wasTx) \/ (last.k = "ping" /\ reply = "err")))
+
 (* no keep-session bookkeeping without keep-session, no transaction map with it *)
 ModeSeparation == (KS => tx = NoMap) /\ (~KS => ks = NoMap)
 
 -----------------------------------------------------------------------------------
 (* Command level.  A world record carries the part of the state a command changes.          *)
 
-NoFault == [op |-> "none", sl |-> 0, kind |-> "none"]
 FaultOps == {"get", "sync", "begin", "setac", "init", "exec", "commit", "rollback", "ping"}
 Faults == {[op |-> "exec", sl |-> s, kind |-> k] : s \in Slices, k \in {"err", "broken", "closed"}}
           \cup {[op |-> o, sl |-> s, kind |-> "broken"] : o \in FaultOps \ {"exec", "get"}, s \in Slices}
@@ -282,13 +297,19 @@ AbortTx(w) ==
                      ELSE PutConn(Op(v, "rollback", v.tx[s]).w, v.tx[s])
     IN [Over2(one, w, Slices) EXCEPT !.tx = NoMap]
 
+(* ---- keep-session housekeeping *)
+DropKs(w) ==                                          \* handleKsQuit / clearKsConns: close, return, forget
+    LET k(v, s) == IF v.ks[s] = NoConn THEN v ELSE ClosePut(v, v.ks[s])
+    IN [Over2(k, w, Slices) EXCEPT !.ks = NoMap]
+
 (* recycleBackendConn after an unsharded statement *)
 RecycleOne(w, c) ==
     IF w.cs[c].bad = "closed"
     THEN IF KS THEN PutConn([w EXCEPT !.ks[SliceOf(c)] = NoConn], c)      \* [repaired: unpin the dead connection]
          ELSE IF WInTx(w) THEN AbortTx(w)                                  \* [repaired: the others are returned too]
          ELSE PutConn(w, c)
-    ELSE IF KS \/ WInTx(w) THEN w
+    ELSE IF KS THEN (IF stale /\ ~WInTx(w) THEN DropKs(w) ELSE w)   \* clearKsConns(nsChangeIndexOld) after the statement
+    ELSE IF WInTx(w) THEN w
     ELSE PutConn(w, c)
 
 FromSlave(kind) == CASE User = "ro"  -> TRUE
@@ -334,11 +355,14 @@ CmdBegin(w) ==                                        \* handleBegin
         r == Over2(k, Over2(t, w, Slices), Slices)
     IN IF r.err THEN r ELSE [r EXCEPT !.intx = TRUE]
 
-EndTx(w, op) ==                                       \* commit / rollback  [repaired: closed connections are returned too]
-    LET t(v, s) == IF v.tx[s] = NoConn THEN v
+EndTx(w, op) ==                                       \* commit / rollback / set autocommit=1
+    \* rollback() skips closed connections [repaired: a closed transaction connection is still returned]
+    LET skip(v, c) == op = "rollback" /\ v.cs[c].bad = "closed"
+        t(v, s) == IF v.tx[s] = NoConn THEN v
+                   ELSE IF skip(v, v.tx[s]) THEN PutConn(v, v.tx[s])
                    ELSE LET o == Op(v, op, v.tx[s]) IN
                         PutConn(IF o.ok THEN o.w ELSE SetErr(o.w), v.tx[s])
-        k(v, s) == IF v.ks[s] = NoConn THEN v
+        k(v, s) == IF v.ks[s] = NoConn \/ skip(v, v.ks[s]) THEN v
                    ELSE LET o == Op(v, op, v.ks[s]) IN IF o.ok THEN o.w ELSE SetErr(o.w)
         r == Over2(k, Over2(t, [w EXCEPT !.intx = FALSE], Slices), Slices)
     IN [r EXCEPT !.tx = NoMap]
@@ -350,36 +374,35 @@ CmdSetAc0(w) ==                                       \* handleSetAutoCommit(fal
                    ELSE LET o == Op(v, "setac0", v.ks[s]) IN IF o.ok THEN o.w ELSE SetErr(o.w)
     IN [Over2(k, w, Slices) EXCEPT !.ac = FALSE]
 
-(* ---- keep-session housekeeping *)
-DropKs(w) ==                                          \* handleKsQuit / clearKsConns: close, return, forget
-    LET k(v, s) == IF v.ks[s] = NoConn THEN v ELSE ClosePut(v, v.ks[s])
-    IN [Over2(k, w, Slices) EXCEPT !.ks = NoMap]
+CloseSession(w) ==                                    \* Session.Close: rollback(), handleKsQuit()
+    [DropKs(EndTx(w, "rollback")) EXCEPT !.alive = FALSE]
 
-CmdPing(w) ==                                         \* handleKeepSessionPing  [repaired: the map is emptied]
+
+(* ---- keep-session ping *)
+CmdPing(w) ==                                         \* handleKeepSessionPing
+    \* [repaired: on a failed ping every pinned connection is closed, returned and forgotten, as   ]
+    \* [handleKsQuit / clearKsConns do; the code returns them alive outside a transaction, keeps   ]
+    \* [the map, and Session.Close then closes and returns them a second time                      ]
     IF ~KS THEN w
     ELSE LET p(v, s) == IF v.err \/ v.ks[s] = NoConn THEN v
                         ELSE LET o == Op(v, "ping", v.ks[s]) IN
                              IF o.ok THEN o.w ELSE SetErr(CloseConn(o.w, v.ks[s]))
              r == Over2(p, w, Slices)
-             rel(v, s) == IF v.ks[s] = NoConn THEN v
-                          ELSE PutConn(IF WInTx(v) THEN CloseConn(v, v.ks[s]) ELSE v, v.ks[s])
-         IN IF r.err THEN [Over2(rel, r, Slices) EXCEPT !.ks = NoMap] ELSE r
-
-CloseSession(w) ==                                    \* Session.Close: rollback(), handleKsQuit()
-    [DropKs(EndTx(w, "rollback")) EXCEPT !.alive = FALSE]
+         IN IF r.err THEN CloseSession(DropKs(r)) ELSE r       \* ErrBadConn closes the session
 
 -----------------------------------------------------------------------------------
 (* One command = one step.  `body` is the command proper; the session loop (Session.Run)     *)
 (* wraps it: refresh the namespace, drop pinned connections after a configuration change     *)
 (* outside a transaction, refuse and disconnect inside one.                                  *)
 
-Commit(w, k, S, wasTx) ==
+Commit(w, k, S, kind, first, f, wasTx) ==
     /\ Assert(~w.over, "MaxPerPool is too small for this behaviour")
     /\ w.fl = NoFault                               \* an armed fault must have fired (no silent no-op faults)
     /\ cs' = w.cs /\ ac' = w.ac /\ intx' = w.intx /\ tx' = w.tx /\ ks' = w.ks /\ alive' = w.alive
     /\ used' = w.used /\ ended' = w.ended
     /\ reply' = IF k = "disconnect" THEN "none" ELSE IF w.err THEN "err" ELSE "ok"
-    /\ last' = [k |-> k, sl |-> S, wasTx |-> wasTx, wasStale |-> stale, pre |-> IF KS THEN ks ELSE tx]
+    /\ last' = [k |-> k, sl |-> S, kind |-> kind, first |-> first, fl |-> f,
+                wasTx |-> wasTx, wasStale |-> stale, pre |-> IF KS THEN ks ELSE tx]
     /\ stale' = FALSE
     /\ nc' = nc + 1
     /\ nf' = IF w.fired THEN nf + 1 ELSE nf
@@ -400,7 +423,7 @@ Body(w, k, S, kind, first) ==
       [] k = "unshard"   -> ExecUnshard(w, kind)
       [] k = "shard"     -> ExecShard(w, S, kind, first)
       [] k = "ping"      -> CmdPing(w)
-      [] k = "quit"      -> CloseSession(EndTx(w, "rollback"))
+      [] k = "quit"      -> [CloseSession(EndTx(w, "rollback")) EXCEPT !.err = FALSE]   \* COM_QUIT has no reply
       [] OTHER           -> w
 
 Command(k, S, kind, first, f) ==
@@ -408,24 +431,24 @@ Command(k, S, kind, first, f) ==
     /\ f # NoFault => nf < MaxFaults
     /\ LET h == LoopHead(World(f))
            r == IF h.refused THEN CloseSession(h.w) ELSE Body(h.w, k, S, kind, first)
-       IN Commit(r, k, S, InTx)
+       IN Commit(r, k, S, kind, first, f, InTx)
 
 Disconnect ==                                         \* read error: clearKsConns, Close
     /\ alive /\ nc < MaxCmds
     /\ LET h == LoopHead(World(NoFault))
-       IN Commit(CloseSession([h.w EXCEPT !.err = FALSE]), "disconnect", {}, InTx)
+       IN Commit(CloseSession([h.w EXCEPT !.err = FALSE]), "disconnect", {}, "none", 0, NoFault, InTx)
 
 NsChange ==                                           \* the namespace is reloaded (environment)
     /\ alive /\ nn < MaxNs /\ nc < MaxCmds /\ ~stale
     /\ stale' = TRUE
     /\ nn' = nn + 1 /\ nc' = nc + 1
-    /\ last' = [k |-> "nschange", sl |-> {}, wasTx |-> InTx, wasStale |-> FALSE, pre |-> IF KS THEN ks ELSE tx]
+    /\ last' = [NoLast EXCEPT !.k = "nschange", !.wasTx = InTx, !.pre = IF KS THEN ks ELSE tx]
     /\ used' = {} /\ ended' = {} /\ reply' = "none"
     /\ UNCHANGED <<KS, User, cs, ac, intx, tx, ks, alive, phase, nf>>
 
 (* Faults that can fire at all in a command (a fault that does not fire is not a different   *)
 (* behaviour): the operation must be one the command path issues, on a slice it addresses.   *)
-FaultsFor(ops, S) == {NoFault} \cup {f \in Faults : f.op \in ops /\ f.sl \in S}
+FaultsFor(ops, S) == {NoFault} \cup {f \in Faults : f.op \in ops /\ f.op \in FOps /\ f.sl \in S}
 StmtOps == {"get", "sync", "begin", "setac", "init", "exec"}
 SliceSets == {{0}, {1}, {0, 1}}
 
@@ -435,10 +458,26 @@ Rollback(f)         == Command("rollback", {}, "none", 0, f)
 SetAutocommit0(f)   == Command("setac0", {}, "none", 0, f)
 SetAutocommit1(f)   == Command("setac1", {}, "none", 0, f)
 Unsharded(kind, f)  == Command("unshard", {0}, kind, 0, f)
-Sharded(S, kind, first, f) == /\ (Cardinality(S) = 1 => first = 0)
+(* The slice visited first matters only when acquiring a connection fails half way while the  *)
+(* session keeps what it already took (transaction / keep-session); otherwise first = 0.      *)
+ShardOutcome(S, kind, first, f) ==
+    LET h == LoopHead(World(f)) r == IF h.refused THEN h.w ELSE Body(h.w, "shard", S, kind, first)
+    IN <<r.cs, r.tx, r.ks, r.err, r.fired>>
+OrderMatters(S, kind, f) ==
+    /\ Cardinality(S) = 2 /\ f.op \in {"get", "sync", "begin", "setac"} /\ (KS \/ InTx)
+    /\ ShardOutcome(S, kind, 0, f) # ShardOutcome(S, kind, 1, f)
+Sharded(S, kind, first, f) == /\ alive /\ nc < MaxCmds
+                              /\ (first = 1 => OrderMatters(S, kind, f))
                               /\ Command("shard", S, kind, first, f)
+
+(* statement kinds that differ for the user: a user without read/write splitting sends        *)
+(* everything to the master; only a read-only user distinguishes a locking read from a write. *)
+StmtKinds == CASE User = "rw" -> {"write"} [] User = "rws" -> {"read", "write"} [] OTHER -> {"read", "write", "lockread"}
+ShardKinds == StmtKinds \ {"lockread"}
 Ping(f)             == Command("ping", {}, "none", 0, f)
 Quit(f)             == Command("quit", {}, "none", 0, f)
+
+Ending == Disconnect \/ \E f \in FaultsFor({"rollback"}, Slices) : Quit(f)
 
 Next ==
     \/ \E f \in FaultsFor({"begin"}, Slices) : Begin(f)
@@ -446,8 +485,8 @@ Next ==
     \/ \E f \in FaultsFor({"rollback"}, Slices) : Rollback(f)
     \/ \E f \in FaultsFor({"setac"}, Slices) : SetAutocommit0(f)
     \/ \E f \in FaultsFor({"setac"}, Slices) : SetAutocommit1(f)
-    \/ \E kind \in {"read", "write", "lockread"}, f \in FaultsFor(StmtOps, {0}) : Unsharded(kind, f)
-    \/ \E S \in SliceSets, kind \in {"read", "write"}, first \in Slices :
+    \/ \E kind \in StmtKinds, f \in FaultsFor(StmtOps, {0}) : Unsharded(kind, f)
+    \/ \E S \in SliceSets, kind \in ShardKinds, first \in Slices :
           \E f \in FaultsFor(StmtOps, S) : Sharded(S, kind, first, f)
     \/ \E f \in FaultsFor({"ping"}, Slices) : Ping(f)
     \/ \E f \in FaultsFor({"rollback"}, Slices) : Quit(f)
